@@ -176,7 +176,7 @@ def suite_hooks(ctx, br, S_ident, S_kw, rng, thorough, stats):
         mod = drv_batch([f"ident\t{d}\t{enc(n)}" for n in names])
         modk = drv_batch([f"is_keyword\t{d}\t{enc(n)}" for n in names])
         for n, i, ik, m, mk in zip(names, impl, implk, mod, modk):
-            ctx.case(("hook", d, n))
+            ctx.case(("hook", d, n), nontrivial=bool(n.strip()))
             want = "bare" if i.get("quote") is None else f"quoted {ord(i['quote'])}"
             stats["hook"][want.split(" ")[0]] += 1
             if i.get("value") != n or not m.startswith(want + " ") and m != want + " ":
@@ -233,7 +233,7 @@ def suite_oracle(ctx, br, progs, con, stats, dialects, label):
     nbad_text = 0
     for k, (p, a, t) in enumerate(zip(progs, comp, tokreq)):
         tid, names, src, want, ordered = p
-        ctx.case(("oracle", src))
+        ctx.case(("oracle", src), nontrivial="sql" in a)
         stats["templates"][tid] += 1
         for pos, n in names.items():
             stats["name_kinds"][kind_of(n)] += 1
@@ -294,7 +294,7 @@ def suite_oracle(ctx, br, progs, con, stats, dialects, label):
     quote_of = stats["quote_of"]
     for (p, d), a, t in zip(meta, comp, toks):
         tid, names, src, want, ordered = p
-        ctx.case(("dialect", d, src))
+        ctx.case(("dialect", d, src), nontrivial="sql" in a)
         used = {n for pos, n in names.items() if pos in tid_positions(tid)}
         if "sql" not in a:
             stats["fail"][(d, tid, "program-rejected")] += 1
@@ -405,7 +405,7 @@ def run(ctx):
     stats["quote_of"] = {d: chr(int(a.split(" ")[1])) for d, a in zip(DIALECTS, drv_batch([f"ident\t{d}\t{enc('a b')}" for d in DIALECTS]))}
     suite_hooks(ctx, br, G.get("Ident", {}).get("summary", {}), G.get("Keywords", {}).get("summary", {}), ctx.rng, thorough, stats)
     con = make_db()
-    progs = build_programs(ctx.rng, 3000 if thorough else 250)
+    progs = build_programs(ctx.rng, 10000 if thorough else 250)
     t0 = time.time()
     suite_oracle(ctx, br, progs, con, stats, DIALECTS if thorough else DIALECTS, "templates")
     ctx.exhaustive = True
